@@ -17,7 +17,7 @@ import GqlProofs.ValSpec.ValuesCorrectFinal
 import GqlProofs.Validate.OverlapSound
 import GqlProofs.Props.C18
 import GqlProofs.Validate.OverlapWitness
-import GqlProofs.Validate.OverlapFlatMain
+import GqlProofs.Validate.OverlapArgsSym
 /-
   C08 — validation accepts exactly what the rules allow.
 
@@ -1666,4 +1666,148 @@ theorem C08_overlap_complete_flat (s : Schema) (d : QueryDoc)
   exact overlap_flat_iff s d ⟨hwp, hfs, hleaf, hparents, hkeys⟩ hflat hj hu hused
 
 #print axioms C08_overlap_complete_flat
+end C08
+
+section C08
+open Gql Gql.Validate Gql.Validate.Rules
+
+/-- a schema whose type table is keyed by the names of its definitions (`Closed.keys`) -/
+theorem C08_overlap_keysOK_of_consistent (s : Schema) (h : Gql.Spec.KeysConsistent s) : KeysOK s := by
+  intro n t ht
+  exact h.1 (n, t) (typesLookup_mem s.types n t ht)
+
+/-- **stages (b)/(c), the memos** — on a document without fragment cycles the memoised rule is
+    equivalent to its memo-free semantics: OverlappingFieldsCanBeMerged reports nothing iff no selection
+    set of `Spec.docSets` has a derivable conflict (`TopHolds`: the judgments follow the Go code without
+    `comparedFragmentPairs` / `comparedFieldsAndFragmentPairs`, and under the link table in which every
+    node is linked).  Neither memo, nor the order in which the walker links nodes, changes the verdict.
+    `MemoHyps`: the other rules' guarantees (`OvHyps`), no cycles, spreads defined, `ArgsSym`, and the
+    node identity assumption of the model (a selection set is identified by its first node). -/
+theorem C08_overlap_memo_free (s : Schema) (d : QueryDoc) (M : MemoHyps s d)
+    (hu : Spec.fragmentNameUniqueness d = true) (hused : Spec.fragmentsMustBeUsed d = true) :
+    validate [overlappingFieldsCanBeMerged] s d = .ok [] ↔
+      ∀ t ∈ Spec.docSets s d, ¬ TopHolds (envOf s d (fullLinks d)) t.parent t.sels :=
+  overlap_silent_iff s d M hu hused
+
+/-- the two directions against §5.3.2 of the memo-free semantics -/
+theorem C08_overlap_sound_spec (s : Schema) (d : QueryDoc) (S : SemHyps s d) (t : Spec.TSet) (ht : t ∈ Spec.docSets s d)
+    (h : TopHolds (envOf s d (fullLinks d)) t.parent t.sels) : SpecFalse s d :=
+  topHolds_specFalse S ht h
+
+/-- hypotheses of `C08_OverlappingFieldsCanBeMerged` that are not specification predicates: loaded
+    schemas (`C07`: closed field types, `String` present, keys consistent) and the node identity
+    assumption of the rule model (DESIGN §4; checked by the harness on every document,
+    `overlap-selection-identity`) -/
+structure C08OverlapHyps (s : Schema) (d : QueryDoc) : Prop where
+  fieldTypesClosed : Gql.Spec.ClosedFieldTypes s
+  hasString : (s.type? (str "String")).isSome
+  keys : KeysOK s
+  /-- a selection set of the document is identified by its first selection node -/
+  idsInj : IdsInj s d
+  /-- the sub-selection of a field or inline fragment is not the selection set of a fragment definition -/
+  idsNested : IdsNested s d
+
+/-- **§5.3.2 — OverlappingFieldsCanBeMerged reports nothing iff `Spec.fieldSelectionMerging` holds**, for
+    documents without fragment cycles and with unique fragment names.  Every other hypothesis is a
+    specification predicate that another rule decides (known root types, known and composite type
+    conditions, defined spreads, fields defined, leaf selections, used fragments, unique argument and
+    input-field names), well-parentedness, or belongs to `C08OverlapHyps`. -/
+theorem C08_OverlappingFieldsCanBeMerged (s : Schema) (d : QueryDoc) (ho : C08OverlapHyps s d)
+    (hacyclic : Spec.noFragmentCycles d = true) (hfn : Spec.fragmentNameUniqueness d = true)
+    (hwp : Spec.wellParented s d = true) (hroot : Spec.knownRootType s d = true)
+    (hdef : Spec.fragmentSpreadTargetDefined d = true) (htc : Spec.fragmentSpreadTypeExistence s d = true)
+    (hcomp : Spec.fragmentsOnCompositeTypes s d = true) (hfs : Spec.fieldSelections s d = true)
+    (hleaf : Spec.leafFieldSelections s d = true) (hused : Spec.fragmentsMustBeUsed d = true)
+    (hargs : Spec.argumentUniqueness s d = true) (hinput : Spec.inputObjectFieldUniqueness s d = true) :
+    validate [overlappingFieldsCanBeMerged] s d = .ok [] ↔ Spec.fieldSelectionMerging s d = true := by
+  have hj : Spec.mergingJudged s d = true := by
+    unfold Spec.mergingJudged
+    unfold Spec.knownRootType at hroot
+    simp only [hdef, hacyclic, htc, hcomp, hfs, hroot, Bool.and_self]
+  have hparents : ∀ t ∈ Spec.docSels s d, t.parent.isSome := by
+    intro t ht
+    obtain ⟨q, hq, _⟩ := parents_present s d ho.fieldTypesClosed ho.hasString hroot hfs htc t ht
+    rw [hq]
+    rfl
+  exact overlap_iff s d ⟨hwp, hfs, hleaf, hparents, ho.keys⟩ hj hfn hused (argsSym_of_spec hargs hinput)
+    (argsRefl_of_spec hinput) ho.idsInj ho.idsNested
+
+/-- the 27 default rules -/
+def c08AllRules : List Rule :=
+  [ fieldsOnCorrectType, fragmentsOnCompositeTypes, knownArgumentNames, knownDirectives, knownFragmentNames,
+    knownRootType, knownTypeNames, loneAnonymousOperation, maxIntrospectionDepth, noFragmentCycles,
+    noUndefinedVariables, noUnusedFragments, noUnusedVariables, overlappingFieldsCanBeMerged, possibleFragmentSpreads,
+    providedRequiredArguments, scalarLeafs, singleFieldSubscriptions, uniqueArgumentNames, uniqueDirectivesPerLocation,
+    uniqueFragmentNames, uniqueInputFieldNames, uniqueOperationNames, uniqueVariableNames, valuesOfCorrectType,
+    variablesAreInputTypes, variablesInAllowedPosition ]
+
+theorem C08_all_rules_are_default_rules : c08AllRules.map (·.name) = defaultRules.map (·.name) := by decide
+
+theorem C08_all_rules_split (P : Rule → Prop) :
+    (∀ r ∈ c08AllRules, P r) ↔ (∀ r ∈ c08Rules, P r) ∧ P overlappingFieldsCanBeMerged := by
+  simp only [c08AllRules, c08Rules, List.mem_cons, List.not_mem_nil, or_false, forall_eq_or_imp, forall_eq]
+  constructor
+  · rintro ⟨r1, r2, r3, r4, r5, r6, r7, r8, r9, r10, r11, r12, r13, ro, r14, r15, r16, r17, r18, r19, r20, r21, r22, r23, rv, r24, r25⟩
+    exact ⟨⟨r1, r2, r3, r4, r5, r6, r7, r8, r9, r10, r11, r12, r13, r14, r15, r16, r17, r18, r19, r20, r21, r22, r23, rv, r24, r25⟩, ro⟩
+  · rintro ⟨⟨r1, r2, r3, r4, r5, r6, r7, r8, r9, r10, r11, r12, r13, r14, r15, r16, r17, r18, r19, r20, r21, r22, r23, rv, r24, r25⟩, ro⟩
+    exact ⟨r1, r2, r3, r4, r5, r6, r7, r8, r9, r10, r11, r12, r13, ro, r14, r15, r16, r17, r18, r19, r20, r21, r22, r23, rv, r24, r25⟩
+
+/-- **C08, verdict**: the 27 default rules, run together, accept exactly the documents that satisfy all
+    28 specification predicates (`Spec.specValid`), field merging (§5.3.2) included. -/
+theorem C08_default_rules_iff_spec (s : Schema) (d : QueryDoc) (h : C08Hyps s d) (ho : C08OverlapHyps s d) :
+    validate c08AllRules s d = .ok [] ↔ Spec.specValid s d = true := by
+  have hpart := C08_default_rules_iff_spec_partial s d h
+  rw [C08_rule_list_silent_iff c08Rules s d (by decide)] at hpart
+  rw [C08_rule_list_silent_iff c08AllRules s d (by decide), C08_all_rules_split, hpart]
+  have hpartc : ((Spec.specVerdicts s d).filter (fun p => !c08Uncovered.contains p.1)).all (·.2) = true ↔
+    (Spec.operationNameUniqueness d = true ∧ Spec.loneAnonymousOperation d = true ∧ Spec.singleRootField s d = true ∧
+     Spec.knownRootType s d = true ∧ Spec.fieldSelections s d = true ∧ Spec.leafFieldSelections s d = true ∧
+     Spec.argumentNames s d = true ∧ Spec.argumentUniqueness s d = true ∧ Spec.requiredArguments s d = true ∧
+     Spec.fragmentNameUniqueness d = true ∧ Spec.fragmentSpreadTypeExistence s d = true ∧
+     Spec.fragmentsOnCompositeTypes s d = true ∧ Spec.fragmentsMustBeUsed d = true ∧
+     Spec.fragmentSpreadTargetDefined d = true ∧ Spec.noFragmentCycles d = true ∧
+     Spec.fragmentSpreadIsPossible s d = true ∧
+     (Spec.valuesOfCorrectType s d && Spec.oneOfVariablesNonNull s d) = true ∧ Spec.inputObjectFieldUniqueness s d = true ∧
+     Spec.directivesAreDefined s d = true ∧ Spec.directivesInValidLocations s d = true ∧
+     Spec.directivesUniquePerLocation s d = true ∧ Spec.variableUniqueness d = true ∧
+     Spec.variablesAreInputTypes s d = true ∧ Spec.allVariableUsesDefined s d = true ∧
+     Spec.allVariablesUsed s d = true ∧ Spec.allVariableUsagesAllowed s d = true ∧ Spec.maxIntrospectionDepth d = true) := by
+    simp only [Spec.specVerdicts, c08Uncovered]
+    simp [List.filter, List.all]
+  have hfull : Spec.specValid s d = true ↔
+    (Spec.operationNameUniqueness d = true ∧ Spec.loneAnonymousOperation d = true ∧ Spec.singleRootField s d = true ∧
+     Spec.knownRootType s d = true ∧ Spec.fieldSelections s d = true ∧ Spec.fieldSelectionMerging s d = true ∧
+     Spec.leafFieldSelections s d = true ∧
+     Spec.argumentNames s d = true ∧ Spec.argumentUniqueness s d = true ∧ Spec.requiredArguments s d = true ∧
+     Spec.fragmentNameUniqueness d = true ∧ Spec.fragmentSpreadTypeExistence s d = true ∧
+     Spec.fragmentsOnCompositeTypes s d = true ∧ Spec.fragmentsMustBeUsed d = true ∧
+     Spec.fragmentSpreadTargetDefined d = true ∧ Spec.noFragmentCycles d = true ∧
+     Spec.fragmentSpreadIsPossible s d = true ∧
+     (Spec.valuesOfCorrectType s d && Spec.oneOfVariablesNonNull s d) = true ∧ Spec.inputObjectFieldUniqueness s d = true ∧
+     Spec.directivesAreDefined s d = true ∧ Spec.directivesInValidLocations s d = true ∧
+     Spec.directivesUniquePerLocation s d = true ∧ Spec.variableUniqueness d = true ∧
+     Spec.variablesAreInputTypes s d = true ∧ Spec.allVariableUsesDefined s d = true ∧
+     Spec.allVariablesUsed s d = true ∧ Spec.allVariableUsagesAllowed s d = true ∧ Spec.maxIntrospectionDepth d = true) := by
+    simp only [Spec.specValid, Spec.specVerdicts]
+    simp [List.all]
+  rw [hpartc, hfull]
+  constructor
+  · rintro ⟨⟨opNames, lone, root1, hroot, hfs, hleaf, argNames, hargs, reqArgs, hfn, htc, hcomp,
+      hused, hdef, hcyc, possible, valuesOK, hinput, dirsDef, dirsLoc, dirsUniq, varUniq, varTypes, varsDef, varsUsed, varsAllowed, depth⟩, hov⟩
+    have hm := (C08_OverlappingFieldsCanBeMerged s d ho hcyc hfn h.wellParented hroot hdef htc hcomp hfs hleaf hused
+      hargs hinput).1 hov
+    exact ⟨opNames, lone, root1, hroot, hfs, hm, hleaf, argNames, hargs, reqArgs, hfn, htc, hcomp,
+      hused, hdef, hcyc, possible, valuesOK, hinput, dirsDef, dirsLoc, dirsUniq, varUniq, varTypes, varsDef, varsUsed, varsAllowed, depth⟩
+  · rintro ⟨opNames, lone, root1, hroot, hfs, hm, hleaf, argNames, hargs, reqArgs, hfn, htc, hcomp,
+      hused, hdef, hcyc, possible, valuesOK, hinput, dirsDef, dirsLoc, dirsUniq, varUniq, varTypes, varsDef, varsUsed, varsAllowed, depth⟩
+    have hov := (C08_OverlappingFieldsCanBeMerged s d ho hcyc hfn h.wellParented hroot hdef htc hcomp hfs hleaf hused
+      hargs hinput).2 hm
+    exact ⟨⟨opNames, lone, root1, hroot, hfs, hleaf, argNames, hargs, reqArgs, hfn, htc, hcomp,
+      hused, hdef, hcyc, possible, valuesOK, hinput, dirsDef, dirsLoc, dirsUniq, varUniq, varTypes, varsDef, varsUsed, varsAllowed, depth⟩, hov⟩
+
+#print axioms C08_overlap_memo_free
+#print axioms C08_overlap_sound_spec
+#print axioms C08_OverlappingFieldsCanBeMerged
+#print axioms C08_all_rules_are_default_rules
+#print axioms C08_default_rules_iff_spec
 end C08
